@@ -17,6 +17,7 @@ _BP = {
 ENTRY = {
     "C05": dict(_MAIN, **{
         "parts": [_MAIN, _BP],
+        "technique": "bounded exhaustive exploration of the real implementation (explicit-state search / stateless DFS over a closed driver) against a reference model (part 1); part 2: stateless model checking of the real producer / writeLoop goroutines under a controlled scheduler (preemption-bounded DFS)",
         "rule": "one execution = one history {record ch0, record ch1, flush, PAUSE, UNPAUSE, STOP+START with the next file-type set} between an initial START and a final STOP on a "
                 "2-channel source with non-trivial identity (names, numbers, row/column codes, sub-frame divisions/offsets, sample rate, decimation; channel 0 with 1xn or 2xn "
                 "projectors), every record pushed through the real AnalyzeData + PublishData; after the final STOP (and two more records that must land nowhere) every file of every "
